@@ -98,7 +98,7 @@ Print Assumptions C01_expand_tree.
    source, tab indent, "\n" newline, formatting on) with the names x, foo, zz is in the domain;
    the text is "x>foo+zz^x"; the model's output is the expected document and its tag chunks nest
    to the denotation.  The same with formatting off and xhtml self-closing style. *)
-Definition ex_m : mconfig := mkMConfig (S "html") markup_snippets [] WNone None None false None [] false false.
+Definition ex_m : mconfig := mkMConfig (S "html") markup_snippets [] WNone None None false None [] false false false [] [] None.
 Definition ex_o (format : bool) (style : string) : oconfig :=
   mkOconfig (mkOfmt [c_tab] [] [c_nl]) [] [] [] format false [] [] 3 false [] (S style) [] false [] [] [] false None None.
 Definition ex_xs : list (str * sop) := [(S "x", SChild); (S "foo", SSibling); (S "zz", SClimb 0); (S "x", SSibling)].
@@ -167,7 +167,7 @@ Example C01_expand_groups_nonvacuous :
 Proof. vm_compute. repeat split; reflexivity. Qed.
 
 (* non-vacuity with the JSX option on and capitalised names: "Foo>Bar+zz" *)
-Definition ex_mj : mconfig := mkMConfig (S "jsx") markup_snippets [] WNone None None true None [] false false.
+Definition ex_mj : mconfig := mkMConfig (S "jsx") markup_snippets [] WNone None None true None [] false false false [] [] None.
 Example C01_expand_jsx_nonvacuous :
   let xs := [(S "Foo", SChild); (S "Bar", SSibling); (S "zz", SSibling)] in
   flat_ok (mkX ex_mj (ex_o true "xhtml")) xs = true /\
